@@ -172,7 +172,7 @@ claim("C19",
 claim("C20",
       "Proof, for all inputs, of the aggregation steps AND of the list folds as closed-form finite sums: getStatusWithMetadata, isActivePod/isAllocatedPod/isPodScheduled, AddPodMetadata, SumResources; calculatePodGroupMetadata "
       "(Requested[r] / Allocated[r] == the sum over the listed pods of the per-pod amount under the phase guard, for every resource name; error ==> no metadata), queue controller sumChildQueueResources / sumPodGroupsResources / "
-      "ResourceUpdater.UpdateQueue (status == children sum + pod-group sum: the per-level equation of the hierarchy), ChildQueuesUpdater.UpdateQueue. Session-3 late: IsPreemptible is no longer trusted - the priority resolution order (named class, else global default, else system default; look-up failures are errors) is verified in getPodGroupPriority.",
+      "ResourceUpdater.UpdateQueue (status == children sum + pod-group sum: the per-level equation of the hierarchy), ChildQueuesUpdater.UpdateQueue. Session-3 late: IsPreemptible is no longer trusted - the priority resolution order (named class, else global default, else system default; look-up failures are errors) is verified in getPodGroupPriority. Session 4 (operator half, first piece): the operator's field-inherit hooks (known_types: mergeAnnotations, MutatingWebhookConfigurationFieldInherit, ValidatingWebhookConfigurationFieldInherit) are verified - whatever the configuration sets (annotation, webhook NamespaceSelector) wins, the cluster's value is taken only where the configuration is silent, nothing is invented; the package is loaded for C20 only.",
       BASE + "Assumed: resource.Quantity as a Real value, per-pod amounts named by trust clauses on GetPodMetadata (client reads: determinism assumed), client.List decodes into fresh memory. "
-      "Not decided: ShouldUpdatePodGroupStatus boolean (reflect.DeepEqual), the patch diff, key sets of the result maps, both Reconcile functions, the induction over hierarchy levels, the operator's Deploy fixpoint.",
+      "Not decided: ShouldUpdatePodGroupStatus boolean (reflect.DeepEqual), the patch diff, key sets of the result maps, both Reconcile functions, the induction over hierarchy levels, the operator's Deploy loop and its other per-kind hooks (only the field-inherit hooks above are under contract).",
       "DESIGN.md 2/C20")
